@@ -57,7 +57,6 @@ PROPS = {
         not_covered=[
             'memory safety of the unsafe blocks below the transport seam (get_message_body::set_len, Reader::read_obj, FuseDevWriter raw Vecs, virtio copy_nonoverlapping) and descriptor-chain construction',
             '"a reply IS sent" on every success path ([C01.answer]): handlers consume their context by value, so only "at most one, and exactly the specified one" is provable; helpers reply_ok/do_reply_error are proved to emit exactly one message when they return Ok',
-            'SETXATTR handler (iter().position has no Verus specification): contract assumed',
             'that the concrete FuseDevWriter / VirtioFsWriter refine the abstract Writer (assume-guarantee seam, DESIGN 3.4d)',
         ],
         trusted=['T3 prelude models (ByteValued as byte function with decode(encode(x)) == x, io::Error, slices/CStr, bitflags, ArcSwap)',
@@ -68,7 +67,7 @@ PROPS = {
         vx_units=['server', 'arcfs'], kx=[], rx=['server'],
         design_ref='DESIGN.md section 5, C02',
         not_covered=[
-            'SETXATTR (handler body assumed: iter().position); the handlers listed as body=assumed in functions_under_contract',
+            'any handler listed as body=assumed in functions_under_contract (none at the time of writing; SETXATTR is verified with Iterator::position(is NUL) replaced by a model call)',
             'that result-less calls (forget, batch_forget, destroy) happen at least once, and "exactly one call" as opposed to "no other call": capabilities forbid every other call but cannot demand one',
             'identity of the payload reader handed to FileSystem::write and of the writer handed to read (only their non-stream arguments are pinned)',
             'Arc<FS> forwarding of readdir / readdirplus (&mut dyn FnMut)',
